@@ -437,7 +437,8 @@ non-trivial = the recipe has an ingredient quantity; distinct = distinct request
             let spec = recipe_spec(&mut rng, w, nt);
             let parser_nt;
             let parser = if nt { parser_nt = CooklangParser::new(Extensions::all() - Extensions::TIMER_REQUIRES_TIME, w.conv.clone()); ctx.count("parser:without TIMER_REQUIRES_TIME"); &parser_nt } else { parser };
-            let f = if i % 3 == 0 { 0.05 + rng.unit_f64() * 20.0 } else { *rng.pick(&factors) };
+            // now and then a factor that takes amounts beyond u32 (the whole part of a fraction is a u32: casts saturate there)
+            let f = if i % 3 == 0 { 0.05 + rng.unit_f64() * 20.0 } else if i % 17 == 5 { *rng.pick(&[3_000_000_001.0, 2_000_000_001.0, 4_294_967_296.5, 1e10, 858_993_459.3, 1e12]) } else { *rng.pick(&factors) };
             let target = if rng.chance(1, 20) { 0 } else { rng.range(1, 24) as u32 };
             let force = match rng.below(20) { 0 => Some(vec![]), 1 => Some(vec![rng.range(1, 9) as u32, 4]), _ => None };
             recipe_case(ctx, w, parser, &spec, f, target, force);
